@@ -274,6 +274,7 @@ func buildPlain(s string, whi int) *plainCase {
 	// reachable any more; should one appear it is counted and only the weak form is required of it.
 	fresh := map[oKey]bool{{0, -1}: true}
 	segInfo := map[oKey][3]int{}
+	succSt := map[oKey]int{} // state returned by the query
 	b := []byte(s)
 	budget := 40 << 20 // bytes scanned; beyond it the table is partial (a miss shows up as a model hang)
 	for len(work) > 0 && pc.ok && budget > 0 {
@@ -295,6 +296,7 @@ func buildPlain(s string, whi int) *plainCase {
 			break
 		}
 		segInfo[k] = [3]int{ci, ce, b2i(br)}
+		succSt[k] = st2
 		fresh[oKey{end, st2}] = true
 		brI := 0
 		if br {
@@ -363,6 +365,36 @@ func buildPlain(s string, whi int) *plainCase {
 			if x != ce-1 || !br {
 				pc.ok = false
 				pc.why = "oracle-term"
+			}
+		}
+	}
+	// PosIndep (hypothesis of plain_no_needless_split_end_to_end): position independence of uniseg.
+	// inside: the query with state -1 at a split point inside a segment returns the remainder of that
+	// segment and the same successor state; boundary: at the end of a segment the query with state -1
+	// answers as the one with the carried state.
+	for k, si := range segInfo {
+		if !pc.ok {
+			break
+		}
+		ci, ce := si[0], si[1]
+		for x := ci + 1; x < ce; x++ {
+			k2 := oKey{pc.offs[x], -1}
+			si2, ok := segInfo[k2]
+			if !ok {
+				continue // not a split point the scanner can reach at these widths
+			}
+			if si2[1] != ce || succSt[k2] != succSt[k] {
+				pc.ok = false
+				pc.why = "pos-indep-inside"
+			}
+		}
+		end := pc.offs[ce]
+		if end < len(b) {
+			sa, _, ba, ta := uniseg.FirstLineSegment(b[end:], -1)
+			sb, _, bb, tb := uniseg.FirstLineSegment(b[end:], succSt[k])
+			if len(sa) != len(sb) || ba != bb || ta != tb {
+				pc.ok = false
+				pc.why = "pos-indep-boundary"
 			}
 		}
 	}
